@@ -1,81 +1,1206 @@
+//! fb-replay: bounded search for a concrete failing history on the REAL crate (path dependency on /repo).
+//!
+//! It is not the deciding step of any check: the checks are decided by the verifier.  It is used
+//!   * to attach a concrete, re-runnable history to a failed obligation (VIOLATION ... replay=...),
+//!   * as the bounded stand-in when the verifier is UNDECIDED on a changed tree,
+//!   * to confirm seeded changes.
+//! usage: fb-replay <C01..C18> [--seed N] [--iters N] [--replay '<json history>']
+//! exit 0 = nothing found (prints NOFAIL), exit 1 = violation found (prints one JSON line).
+
 use futures_buffered::*;
 use futures_core::Stream;
-use std::cell::Cell;
+use std::cell::{Cell, RefCell};
+use std::collections::VecDeque;
 use std::future::Future;
 use std::pin::Pin;
 use std::rc::Rc;
+use std::sync::atomic::{AtomicUsize, Ordering};
 use std::sync::Arc;
 use std::task::{Context, Poll, Wake, Waker};
 
-struct Noop;
-impl Wake for Noop { fn wake(self: Arc<Self>) {} }
-
-// future: ready iff flag set
-struct Fl { ready: Rc<Cell<bool>>, out: Option<Tok> }
-struct Tok(Rc<Cell<i32>>, i32);
-impl Drop for Tok { fn drop(&mut self) { self.0.set(self.0.get() + 1); } }
-impl Future for Fl { type Output = Tok; fn poll(mut self: Pin<&mut Self>, _cx: &mut Context<'_>) -> Poll<Tok> { if self.ready.get() { Poll::Ready(self.out.take().unwrap()) } else { Poll::Pending } } }
-struct FlR { ready: Rc<Cell<bool>>, out: Option<Result<Tok, i32>> }
-impl Future for FlR { type Output = Result<Tok,i32>; fn poll(mut self: Pin<&mut Self>, _cx: &mut Context<'_>) -> Poll<Self::Output> { if self.ready.get() { Poll::Ready(self.out.take().unwrap()) } else { Poll::Pending } } }
-
-struct Up<I: Iterator>(I, usize);
-impl<I: Iterator + Unpin> Stream for Up<I> { type Item = I::Item; fn poll_next(mut self: Pin<&mut Self>, _cx: &mut Context<'_>) -> Poll<Option<I::Item>> { self.1 += 1; Poll::Ready(self.0.next()) } }
-
-struct Rep(usize, bool); // infinite source / or always pending
-impl Stream for Rep { type Item = usize; fn poll_next(self: Pin<&mut Self>, _cx: &mut Context<'_>) -> Poll<Option<usize>> { if self.1 { Poll::Ready(Some(self.0)) } else { Poll::Pending } } }
-
-fn main() {
-    let w = Waker::from(Arc::new(Noop));
-    let mut cx = Context::from_waker(&w);
-    let drops = Rc::new(Cell::new(0));
-
-    // C16: buffered_ordered(2), head never completes, rest ready
-    {
-        let never = Rc::new(Cell::new(false)); let yes = Rc::new(Cell::new(true));
-        let d = drops.clone(); let (n2, y2) = (never.clone(), yes.clone());
-        let mut pulled = 0usize;
-        let it = (0..).map(move |i| { Fl { ready: if i == 0 { n2.clone() } else { y2.clone() }, out: Some(Tok(d.clone(), i)) } });
-        let up = Up(it, 0);
-        let mut s = Box::pin(up.buffered_ordered(2));
-        for k in 0..5 { let r = s.as_mut().poll_next(&mut cx); pulled = k; let _ = r.is_pending(); println!("C16 poll {k}: pending={} size_hint={:?}", r.is_pending(), s.size_hint()); }
-        let _ = pulled;
+// ------------------------------------------------------------------------------------------------ rng
+struct Rng(u64);
+impl Rng {
+    fn next(&mut self) -> u64 {
+        self.0 ^= self.0 << 13;
+        self.0 ^= self.0 >> 7;
+        self.0 ^= self.0 << 17;
+        self.0
     }
-    // C17: try_buffered_unordered size_hint after upstream end with in-flight
-    {
-        let never = Rc::new(Cell::new(false));
-        let d = drops.clone();
-        let v: Vec<Result<FlR, i32>> = vec![Ok(FlR { ready: never.clone(), out: Some(Ok(Tok(d.clone(), 7))) })];
-        let mut s = Box::pin(Up(v.into_iter(), 0).try_buffered_unordered(2));
-        let r = s.as_mut().poll_next(&mut cx);
-        println!("C17 after poll pending={} size_hint={:?} (1 item still to come)", r.is_pending(), s.size_hint());
-        never.set(true);
-        let r = s.as_mut().poll_next(&mut cx);
-        println!("C17 then yields item: {}", matches!(r, Poll::Ready(Some(Ok(_)))));
+    fn below(&mut self, n: usize) -> usize {
+        (self.next() % n.max(1) as u64) as usize
     }
-    // C06: join_all cancelled after one output
-    {
-        let d = Rc::new(Cell::new(0));
-        let yes = Rc::new(Cell::new(true)); let never = Rc::new(Cell::new(false));
-        let mut j = Box::pin(join_all(vec![Fl { ready: yes.clone(), out: Some(Tok(d.clone(), 0)) }, Fl { ready: never.clone(), out: Some(Tok(d.clone(), 1)) }]));
-        let r = j.as_mut().poll(&mut cx); println!("C06 join_all pending={}", r.is_pending());
+}
+
+// ------------------------------------------------------------------------------------------------ counting allocator (C18)
+struct CountAlloc;
+static ALLOCS: AtomicUsize = AtomicUsize::new(0);
+unsafe impl std::alloc::GlobalAlloc for CountAlloc {
+    unsafe fn alloc(&self, l: std::alloc::Layout) -> *mut u8 {
+        ALLOCS.fetch_add(1, Ordering::Relaxed);
+        std::alloc::System.alloc(l)
+    }
+    unsafe fn dealloc(&self, p: *mut u8, l: std::alloc::Layout) {
+        std::alloc::System.dealloc(p, l)
+    }
+    unsafe fn realloc(&self, p: *mut u8, l: std::alloc::Layout, n: usize) -> *mut u8 {
+        ALLOCS.fetch_add(1, Ordering::Relaxed);
+        std::alloc::System.realloc(p, l, n)
+    }
+}
+#[global_allocator]
+static A: CountAlloc = CountAlloc;
+
+// ------------------------------------------------------------------------------------------------ task waker
+struct CountWaker(AtomicUsize);
+impl Wake for CountWaker {
+    fn wake(self: Arc<Self>) {
+        self.0.fetch_add(1, Ordering::SeqCst);
+    }
+    fn wake_by_ref(self: &Arc<Self>) {
+        self.0.fetch_add(1, Ordering::SeqCst);
+    }
+}
+
+// ------------------------------------------------------------------------------------------------ scripted children
+#[derive(Default)]
+struct ChildSt {
+    ready: Cell<bool>,
+    polls: Cell<usize>,
+    done: Cell<bool>,
+    polled_after_done: Cell<bool>,
+    dropped: Cell<usize>,
+    out_dropped: Cell<usize>,
+    waker: RefCell<Option<Waker>>,
+    self_wake: Cell<bool>,
+    addr: Cell<usize>,
+    moved: Cell<bool>,
+    woken_since_poll: Cell<bool>,
+    err: Cell<bool>,
+}
+type St = Rc<ChildSt>;
+
+struct Out {
+    id: usize,
+    st: St,
+}
+impl Drop for Out {
+    fn drop(&mut self) {
+        self.st.out_dropped.set(self.st.out_dropped.get() + 1);
+    }
+}
+struct Fut {
+    id: usize,
+    st: St,
+    _pin: std::marker::PhantomPinned,
+}
+impl Fut {
+    fn new(id: usize, st: St) -> Fut {
+        Fut { id, st, _pin: std::marker::PhantomPinned }
+    }
+}
+impl Drop for Fut {
+    fn drop(&mut self) {
+        self.st.dropped.set(self.st.dropped.get() + 1);
+        let a = self as *const _ as usize;
+        if self.st.addr.get() != 0 && self.st.addr.get() != a {
+            self.st.moved.set(true);
+        }
+    }
+}
+impl Future for Fut {
+    type Output = Out;
+    fn poll(self: Pin<&mut Self>, cx: &mut Context<'_>) -> Poll<Out> {
+        let a = &*self as *const _ as usize;
+        let st = &self.st;
+        if st.addr.get() == 0 {
+            st.addr.set(a);
+        } else if st.addr.get() != a {
+            st.moved.set(true);
+        }
+        st.polls.set(st.polls.get() + 1);
+        st.woken_since_poll.set(false);
+        if st.done.get() {
+            st.polled_after_done.set(true);
+        }
+        if st.ready.get() {
+            st.done.set(true);
+            Poll::Ready(Out { id: self.id, st: st.clone() })
+        } else {
+            *st.waker.borrow_mut() = Some(cx.waker().clone());
+            if st.self_wake.get() {
+                cx.waker().wake_by_ref();
+                st.woken_since_poll.set(true);
+            }
+            Poll::Pending
+        }
+    }
+}
+/// Result-returning variant for try_join_all / try_buffered
+struct TFut(Fut);
+impl Future for TFut {
+    type Output = Result<Out, usize>;
+    fn poll(self: Pin<&mut Self>, cx: &mut Context<'_>) -> Poll<Self::Output> {
+        let err = self.0.st.err.get();
+        let id = self.0.id;
+        let inner = unsafe { self.map_unchecked_mut(|s| &mut s.0) };
+        match inner.poll(cx) {
+            Poll::Ready(o) => {
+                if err {
+                    Poll::Ready(Err(id))
+                } else {
+                    Poll::Ready(Ok(o))
+                }
+            }
+            Poll::Pending => Poll::Pending,
+        }
+    }
+}
+
+fn wake_child(st: &St) {
+    if let Some(w) = st.waker.borrow().as_ref() {
+        w.wake_by_ref();
+        st.woken_since_poll.set(true);
+    }
+}
+
+// ------------------------------------------------------------------------------------------------ scripted upstream
+#[derive(Clone, Copy, Debug, PartialEq)]
+enum Up {
+    Item,
+    Pending,
+    End,
+}
+struct UpSt {
+    script: RefCell<VecDeque<Up>>,
+    polls: Cell<usize>,
+    polled_after_end: Cell<bool>,
+    ended: Cell<bool>,
+    produced: Cell<usize>,
+    last_pending: Cell<bool>,
+    children: RefCell<Vec<St>>,
+    honest_remaining: Cell<usize>,
+    err_at: Cell<usize>,
+}
+struct Upstream<T> {
+    st: Rc<UpSt>,
+    mk: Box<dyn FnMut(usize, St) -> T>,
+}
+impl<T> Unpin for Upstream<T> {}
+impl<T> Stream for Upstream<T> {
+    type Item = T;
+    fn poll_next(mut self: Pin<&mut Self>, _cx: &mut Context<'_>) -> Poll<Option<T>> {
+        let st = self.st.clone();
+        st.polls.set(st.polls.get() + 1);
+        if st.ended.get() {
+            st.polled_after_end.set(true);
+            return Poll::Ready(None);
+        }
+        let next = st.script.borrow_mut().pop_front().unwrap_or(Up::End);
+        st.last_pending.set(next == Up::Pending);
+        match next {
+            Up::Item => {
+                let id = st.produced.get();
+                st.produced.set(id + 1);
+                st.honest_remaining.set(st.honest_remaining.get().saturating_sub(1));
+                let c: St = Rc::new(ChildSt::default());
+                st.children.borrow_mut().push(c.clone());
+                Poll::Ready(Some((self.mk)(id, c)))
+            }
+            Up::Pending => Poll::Pending,
+            Up::End => {
+                st.ended.set(true);
+                Poll::Ready(None)
+            }
+        }
+    }
+    fn size_hint(&self) -> (usize, Option<usize>) {
+        let r = self.st.honest_remaining.get();
+        (r, Some(r))
+    }
+}
+fn upstream<T>(script: &[Up], mk: Box<dyn FnMut(usize, St) -> T>) -> (Upstream<T>, Rc<UpSt>) {
+    let items = script.iter().take_while(|u| **u != Up::End).filter(|u| **u == Up::Item).count();
+    let st = Rc::new(UpSt {
+        script: RefCell::new(script.iter().copied().collect()),
+        polls: Cell::new(0),
+        polled_after_end: Cell::new(false),
+        ended: Cell::new(false),
+        produced: Cell::new(0),
+        last_pending: Cell::new(false),
+        children: RefCell::new(vec![]),
+        honest_remaining: Cell::new(items),
+        err_at: Cell::new(usize::MAX),
+    });
+    (Upstream { st: st.clone(), mk }, st)
+}
+
+// ------------------------------------------------------------------------------------------------ failure reporting
+struct Fail {
+    prop: &'static str,
+    scenario: String,
+    history: Vec<String>,
+    what: String,
+}
+fn report(f: &Fail) -> ! {
+    let h: Vec<String> = f.history.iter().map(|s| format!("\"{}\"", s.replace('"', "'"))).collect();
+    println!(
+        "{{\"property\":\"{}\",\"scenario\":\"{}\",\"history\":[{}],\"observed\":\"{}\"}}",
+        f.prop,
+        f.scenario,
+        h.join(","),
+        f.what.replace('"', "'")
+    );
+    std::process::exit(1)
+}
+
+// ------------------------------------------------------------------------------------------------ collections (C02 C04 C05 C08 C12 C13 C14 C15 C01)
+enum Coll {
+    Fub(FuturesUnorderedBounded<Fut>),
+    Fu(FuturesUnordered<Fut>),
+    Fob(FuturesOrderedBounded<Fut>),
+    Fo(FuturesOrdered<Fut>),
+}
+impl Coll {
+    fn name(&self) -> &'static str {
+        match self {
+            Coll::Fub(_) => "FuturesUnorderedBounded",
+            Coll::Fu(_) => "FuturesUnordered",
+            Coll::Fob(_) => "FuturesOrderedBounded",
+            Coll::Fo(_) => "FuturesOrdered",
+        }
+    }
+    fn ordered(&self) -> bool {
+        matches!(self, Coll::Fob(_) | Coll::Fo(_))
+    }
+    fn len(&self) -> usize {
+        match self {
+            Coll::Fub(c) => c.len(),
+            Coll::Fu(c) => c.len(),
+            Coll::Fob(c) => c.len(),
+            Coll::Fo(c) => c.len(),
+        }
+    }
+    fn is_empty(&self) -> bool {
+        match self {
+            Coll::Fub(c) => c.is_empty(),
+            Coll::Fu(c) => c.is_empty(),
+            Coll::Fob(c) => c.is_empty(),
+            Coll::Fo(c) => c.is_empty(),
+        }
+    }
+    fn size_hint(&self) -> (usize, Option<usize>) {
+        match self {
+            Coll::Fub(c) => c.size_hint(),
+            Coll::Fu(c) => c.size_hint(),
+            Coll::Fob(c) => c.size_hint(),
+            Coll::Fo(c) => c.size_hint(),
+        }
+    }
+    /// Ok(()) accepted, Err(f) refused
+    fn push_back(&mut self, f: Fut) -> Result<(), Fut> {
+        match self {
+            Coll::Fub(c) => c.try_push(f),
+            Coll::Fu(c) => {
+                c.push(f);
+                Ok(())
+            }
+            Coll::Fob(c) => c.try_push_back(f),
+            Coll::Fo(c) => {
+                c.push_back(f);
+                Ok(())
+            }
+        }
+    }
+    fn push_front(&mut self, f: Fut) -> Result<(), Fut> {
+        match self {
+            Coll::Fob(c) => c.try_push_front(f),
+            Coll::Fo(c) => {
+                c.push_front(f);
+                Ok(())
+            }
+            _ => self.push_back(f),
+        }
+    }
+    fn poll(&mut self, cx: &mut Context<'_>) -> Poll<Option<Out>> {
+        match self {
+            Coll::Fub(c) => Pin::new(c).poll_next(cx),
+            Coll::Fu(c) => Pin::new(c).poll_next(cx),
+            Coll::Fob(c) => Pin::new(c).poll_next(cx),
+            Coll::Fo(c) => Pin::new(c).poll_next(cx),
+        }
+    }
+}
+
+fn run_collections(prop: &'static str, seed: u64, iters: usize) {
+    let mut rng = Rng(seed.wrapping_mul(0x9E3779B97F4A7C15) | 1);
+    for it in 0..iters {
+        let kind = rng.below(4);
+        let cap = 1 + rng.below(3);
+        let mut coll = match kind {
+            0 => Coll::Fub(FuturesUnorderedBounded::new(cap)),
+            1 => Coll::Fu(FuturesUnordered::with_capacity(cap)),
+            2 => Coll::Fob(FuturesOrderedBounded::new(cap)),
+            _ => Coll::Fo(FuturesOrdered::with_capacity(cap)),
+        };
+        if it % 50 == 0 {
+            // zero capacity constructors (C15)
+            let _ = FuturesUnorderedBounded::<Fut>::new(0);
+            let _ = FuturesOrderedBounded::<Fut>::new(0);
+            let _ = FuturesOrdered::<Fut>::with_capacity(0);
+            let _ = FuturesUnordered::<Fut>::with_capacity(0);
+        }
+        let bounded = kind == 0 || kind == 2;
+        let scenario = format!("{}(cap={cap})", coll.name());
+        let tw = Arc::new(CountWaker(AtomicUsize::new(0)));
+        let waker = Waker::from(tw.clone());
+        let mut cx = Context::from_waker(&waker);
+        let mut hist: Vec<String> = vec![];
+        let mut children: Vec<St> = vec![];
+        // model: deque of ids for ordered, set for unordered
+        let mut model: VecDeque<usize> = VecDeque::new();
+        let mut yielded: Vec<usize> = vec![];
+        let mut wakes_total = 0usize;
+        let mut pushes = 0usize;
+        let steps = 4 + rng.below(14);
+        let fail = |hist: &Vec<String>, what: String| -> ! { report(&Fail { prop, scenario: scenario.clone(), history: hist.clone(), what }) };
+        for _ in 0..steps {
+            match rng.below(10) {
+                0 | 1 | 2 => {
+                    let front = coll.ordered() && rng.below(3) == 0;
+                    let id = children.len();
+                    let st: St = Rc::new(ChildSt::default());
+                    if rng.below(3) == 0 {
+                        st.ready.set(true);
+                    }
+                    if rng.below(6) == 0 {
+                        st.self_wake.set(true);
+                    }
+                    children.push(st.clone());
+                    let before_len = coll.len();
+                    let running: usize = model.iter().filter(|i| !children[**i].done.get()).count();
+                    let f = Fut::new(id, st.clone());
+                    let r = if front { coll.push_front(f) } else { coll.push_back(f) };
+                    hist.push(format!("push_{}({id}{}{})", if front { "front" } else { "back" }, if st.ready.get() { ",ready" } else { "" }, if st.self_wake.get() { ",selfwake" } else { "" }));
+                    match r {
+                        Ok(()) => {
+                            pushes += 1;
+                            if bounded && running >= cap {
+                                fail(&hist, format!("push accepted although {running} futures are running in a collection of capacity {cap}"));
+                            }
+                            if front { model.push_front(id) } else { model.push_back(id) }
+                            if coll.len() != before_len + 1 {
+                                fail(&hist, format!("len {} after accepted push, expected {}", coll.len(), before_len + 1));
+                            }
+                        }
+                        Err(f) => {
+                            if !bounded || running < cap {
+                                fail(&hist, format!("push refused although only {running} of {cap} futures are running"));
+                            }
+                            if f.id != id {
+                                fail(&hist, "try_push returned a different future".into());
+                            }
+                            drop(f);
+                            st.dropped.set(0); // the refused future was dropped by us
+                            children.pop();
+                            if coll.len() != before_len {
+                                fail(&hist, "len changed by a refused push".into());
+                            }
+                        }
+                    }
+                }
+                3 | 4 | 5 | 6 => {
+                    let before = tw.0.load(Ordering::SeqCst);
+                    let before_polls: Vec<usize> = children.iter().map(|c| c.polls.get()).collect();
+                    let r = coll.poll(&mut cx);
+                    let after = tw.0.load(Ordering::SeqCst);
+                    let child_polls: usize = children.iter().zip(&before_polls).map(|(c, b)| c.polls.get() - b).sum();
+                    match r {
+                        Poll::Ready(Some(o)) => {
+                            hist.push(format!("poll -> Some({})", o.id));
+                            if yielded.contains(&o.id) {
+                                fail(&hist, format!("output {} yielded twice", o.id));
+                            }
+                            if !model.contains(&o.id) {
+                                fail(&hist, format!("output {} was never accepted / already yielded", o.id));
+                            }
+                            if coll.ordered() && model.front() != Some(&o.id) {
+                                fail(&hist, format!("ordered collection yielded {} but the head of the queue is {:?}", o.id, model.front()));
+                            }
+                            if children[o.id].dropped.get() != 1 {
+                                fail(&hist, format!("future {} not dropped when its output was handed out (drops={})", o.id, children[o.id].dropped.get()));
+                            }
+                            model.retain(|i| *i != o.id);
+                            yielded.push(o.id);
+                        }
+                        Poll::Ready(None) => {
+                            hist.push("poll -> None".into());
+                            if !model.is_empty() {
+                                fail(&hist, format!("Ready(None) while {} futures/outputs are still held", model.len()));
+                            }
+                        }
+                        Poll::Pending => {
+                            hist.push(format!("poll -> Pending (task wakes {})", after - before));
+                            if model.is_empty() {
+                                fail(&hist, "Pending although the collection is empty".into());
+                            }
+                            // C01: a held child that is ready-and-woken / never polled must not be left behind silently
+                            let missed: Vec<usize> = model.iter().copied().filter(|i| {
+                                let c = &children[*i];
+                                !c.done.get() && (c.polls.get() == 0 || c.woken_since_poll.get())
+                            }).collect();
+                            if !missed.is_empty() && after == before {
+                                fail(&hist, format!("Pending with children {:?} pushed/woken but not polled and the task waker not invoked", missed));
+                            }
+                            // ordered: head ready & woken must not be parked silently
+                        }
+                    }
+                    if child_polls > 61 * 40 {
+                        fail(&hist, format!("{child_polls} child polls in one poll call"));
+                    }
+                    for (i, c) in children.iter().enumerate() {
+                        if c.polled_after_done.get() {
+                            fail(&hist, format!("future {i} polled again after it returned Ready"));
+                        }
+                        if c.moved.get() {
+                            fail(&hist, format!("future {i} observed at two different addresses"));
+                        }
+                    }
+                    let _ = wakes_total;
+                }
+                7 => {
+                    if !children.is_empty() {
+                        let i = rng.below(children.len());
+                        children[i].ready.set(true);
+                        wake_child(&children[i]);
+                        wakes_total += 1;
+                        hist.push(format!("complete({i})"));
+                    }
+                }
+                8 => {
+                    if !children.is_empty() {
+                        let i = rng.below(children.len());
+                        wake_child(&children[i]);
+                        wakes_total += 1;
+                        hist.push(format!("wake({i})"));
+                    }
+                }
+                _ => {
+                    // move the collection value (C08)
+                    let moved = std::mem::replace(&mut coll, Coll::Fu(FuturesUnordered::new()));
+                    let boxed = Box::new(moved);
+                    coll = *boxed;
+                    hist.push("move collection".into());
+                }
+            }
+            // observers (C15 / C17)
+            let expect = model.len();
+            if coll.len() != expect || coll.is_empty() != (expect == 0) {
+                fail(&hist, format!("len()={} is_empty()={} but {} entries are held", coll.len(), coll.is_empty(), expect));
+            }
+            let (lo, hi) = coll.size_hint();
+            if lo > expect || hi.map(|h| h < expect).unwrap_or(false) {
+                fail(&hist, format!("size_hint ({lo},{hi:?}) does not bracket {expect}"));
+            }
+            // C12: total child polls <= pushes + wakes (+ self wakes counted as wakes)
+            let total_polls: usize = children.iter().map(|c| c.polls.get()).sum();
+            let self_wakes: usize = children.iter().filter(|c| c.self_wake.get()).map(|c| c.polls.get()).sum();
+            if total_polls > pushes + wakes_total + self_wakes {
+                fail(&hist, format!("{total_polls} child polls but only {pushes} pushes + {wakes_total} wakes (+{self_wakes} self wakes)"));
+            }
+        }
+        // quiesce (C14): no child wakes any more -> within held+2 polls a Pending without task wake
+        for c in &children {
+            c.self_wake.set(false);
+        }
+        let held = model.len();
+        let mut quiet = model.is_empty();
+        for _ in 0..(held + 2) * 3 {
+            let before = tw.0.load(Ordering::SeqCst);
+            match coll.poll(&mut cx) {
+                Poll::Pending => {
+                    if tw.0.load(Ordering::SeqCst) == before {
+                        quiet = true;
+                        break;
+                    }
+                }
+                Poll::Ready(Some(o)) => {
+                    if coll.ordered() && model.front() != Some(&o.id) {
+                        fail(&hist, format!("ordered collection yielded {} but the head of the queue is {:?}", o.id, model.front()));
+                    }
+                    model.retain(|i| *i != o.id);
+                }
+                Poll::Ready(None) => {
+                    if !model.is_empty() {
+                        fail(&hist, format!("Ready(None) while {} entries are held", model.len()));
+                    }
+                    quiet = true;
+                    break;
+                }
+            }
+        }
+        if !quiet {
+            hist.push("(quiesce)".into());
+            fail(&hist, "the task keeps being woken although no child wakes".into());
+        }
+        // drain: complete everything, everything must come out exactly once, in order
+        for c in &children {
+            c.ready.set(true);
+            wake_child(c);
+        }
+        let mut guard = 0;
+        while !model.is_empty() {
+            guard += 1;
+            if guard > 10_000 {
+                hist.push("(drain)".into());
+                fail(&hist, format!("outputs {:?} never yielded although every future is ready and woken", model));
+            }
+            match coll.poll(&mut cx) {
+                Poll::Ready(Some(o)) => {
+                    if coll.ordered() && model.front() != Some(&o.id) {
+                        hist.push("(drain)".into());
+                        fail(&hist, format!("ordered collection yielded {} but the head of the queue is {:?}", o.id, model.front()));
+                    }
+                    if !model.contains(&o.id) {
+                        fail(&hist, format!("output {} yielded twice / never accepted", o.id));
+                    }
+                    model.retain(|i| *i != o.id);
+                }
+                Poll::Ready(None) => {
+                    hist.push("(drain)".into());
+                    fail(&hist, format!("Ready(None) while {:?} are still held", model));
+                }
+                Poll::Pending => {}
+            }
+        }
+        drop(coll);
+        for (i, c) in children.iter().enumerate() {
+            if c.dropped.get() != 1 {
+                hist.push("(drop collection)".into());
+                fail(&hist, format!("future {i} dropped {} times", c.dropped.get()));
+            }
+            if c.done.get() && c.out_dropped.get() != 1 {
+                fail(&hist, format!("output {i} dropped {} times", c.out_dropped.get()));
+            }
+        }
+    }
+}
+
+// ------------------------------------------------------------------------------------------------ adapters (C09 C10 C16 C17 C04)
+fn run_adapters(prop: &'static str, seed: u64, iters: usize) {
+    let mut rng = Rng(seed.wrapping_mul(0xD1B54A32D192ED03) | 1);
+    for _ in 0..iters {
+        let n = 1 + rng.below(3);
+        let len = rng.below(8);
+        let mut script: Vec<Up> = vec![];
+        for _ in 0..len {
+            script.push(if rng.below(4) == 0 { Up::Pending } else { Up::Item });
+        }
+        script.push(Up::End);
+        let which = rng.below(5);
+        let names = ["buffered_unordered", "buffered_ordered", "try_buffered_unordered", "try_buffered_ordered", "for_each_concurrent"];
+        let scenario = format!("{}({n}) upstream={:?}", names[which], script);
+        let ordered = which == 1 || which == 3;
+        let tw = Arc::new(CountWaker(AtomicUsize::new(0)));
+        let waker = Waker::from(tw.clone());
+        let mut cx = Context::from_waker(&waker);
+        let mut hist: Vec<String> = vec![];
+        let fail = |hist: &Vec<String>, what: String| -> ! { report(&Fail { prop, scenario: scenario.clone(), history: hist.clone(), what }) };
+        // build
+        type BoxS = Pin<Box<dyn Stream<Item = Result<usize, usize>>>>;
+        let called = Rc::new(Cell::new(0usize));
+        let (mut s, ust): (BoxS, Rc<UpSt>) = match which {
+            0 => {
+                let (u, st) = upstream(&script, Box::new(|id, c| Fut::new(id, c)));
+                (Box::pin(MapOk(u.buffered_unordered(n))), st)
+            }
+            1 => {
+                let (u, st) = upstream(&script, Box::new(|id, c| Fut::new(id, c)));
+                (Box::pin(MapOk(u.buffered_ordered(n))), st)
+            }
+            2 => {
+                let (u, st) = upstream(&script, Box::new(|id, c| Ok::<TFut, usize>(TFut(Fut::new(id, c)))));
+                (Box::pin(MapTry(u.try_buffered_unordered(n))), st)
+            }
+            3 => {
+                let (u, st) = upstream(&script, Box::new(|id, c| Ok::<TFut, usize>(TFut(Fut::new(id, c)))));
+                (Box::pin(MapTry(u.try_buffered_ordered(n))), st)
+            }
+            _ => {
+                let (u, st) = upstream(&script, Box::new(|id, c| (id, c)));
+                let called2 = called.clone();
+                let f = u.for_each_concurrent(n, move |(id, c): (usize, St)| {
+                    called2.set(called2.get() + 1);
+                    UnitFut(Fut::new(id, c))
+                });
+                (Box::pin(FutStream(Some(Box::pin(f)))), st)
+            }
+        };
+        let mut yielded: Vec<usize> = vec![];
+        let mut finished = false;
+        for _step in 0..40 {
+            match rng.below(4) {
+                0 => {
+                    let cs = ust.children.borrow();
+                    if !cs.is_empty() {
+                        let i = rng.below(cs.len());
+                        cs[i].ready.set(true);
+                        wake_child(&cs[i]);
+                        hist.push(format!("complete({i})"));
+                    }
+                }
+                _ => {
+                    let polls_before = ust.polls.get();
+                    let r = s.as_mut().poll_next(&mut cx);
+                    let cs = ust.children.borrow();
+                    let in_flight = cs.iter().filter(|c| c.dropped.get() == 0).count();
+                    let pulled_not_yielded = cs.len() - yielded.len();
+                    match r {
+                        Poll::Ready(Some(Ok(id))) | Poll::Ready(Some(Err(id))) => {
+                            hist.push(format!("poll -> item {id}"));
+                            if yielded.contains(&id) {
+                                fail(&hist, format!("item {id} yielded twice"));
+                            }
+                            if ordered && id != yielded.len() {
+                                fail(&hist, format!("ordered adapter yielded item {id}, expected {}", yielded.len()));
+                            }
+                            yielded.push(id);
+                        }
+                        Poll::Ready(None) => {
+                            hist.push("poll -> None".into());
+                            if !ust.ended.get() || which != 4 && yielded.len() != cs.len() {
+                                fail(&hist, format!("None although upstream ended={} and {} of {} pulled items were yielded", ust.ended.get(), yielded.len(), cs.len()));
+                            }
+                            if which == 4 && (cs.iter().any(|c| !c.done.get()) || called.get() != cs.len()) {
+                                fail(&hist, "for_each_concurrent completed with futures unfinished / items not passed to f".into());
+                            }
+                            finished = true;
+                        }
+                        Poll::Pending => {
+                            hist.push("poll -> Pending".into());
+                            let undelivered = if which == 4 { in_flight } else { pulled_not_yielded };
+                            let up_pending_now = ust.polls.get() > polls_before && ust.last_pending.get();
+                            if !(undelivered >= n || ust.ended.get() || up_pending_now) {
+                                fail(&hist, format!("Pending with {undelivered} < {n} items unfinished/undelivered, upstream not ended and not polled-Pending in this call"));
+                            }
+                            if ust.ended.get() && undelivered == 0 {
+                                fail(&hist, "Pending although upstream is exhausted and nothing is in flight".into());
+                            }
+                        }
+                    }
+                    if in_flight > n {
+                        fail(&hist, format!("{in_flight} unfinished futures held, limit {n}"));
+                    }
+                    if ordered && pulled_not_yielded > n {
+                        fail(&hist, format!("{pulled_not_yielded} items pulled but not yielded, limit {n}"));
+                    }
+                    if ust.polled_after_end.get() {
+                        fail(&hist, "upstream polled again after it returned None".into());
+                    }
+                    if which != 4 && !finished {
+                        let remaining = ust.honest_remaining.get() + (cs.len() - yielded.len());
+                        let (lo, hi) = s.size_hint();
+                        if lo > remaining || hi.map(|h| h < remaining).unwrap_or(false) {
+                            fail(&hist, format!("size_hint ({lo},{hi:?}) does not bracket the {remaining} items still to come"));
+                        }
+                    }
+                    for (i, c) in cs.iter().enumerate() {
+                        if c.polled_after_done.get() {
+                            fail(&hist, format!("future {i} polled after completion"));
+                        }
+                    }
+                }
+            }
+            if finished {
+                break;
+            }
+        }
+        drop(s);
+        for (i, c) in ust.children.borrow().iter().enumerate() {
+            if c.dropped.get() != 1 {
+                hist.push("(drop adapter)".into());
+                fail(&hist, format!("future {i} dropped {} times", c.dropped.get()));
+            }
+        }
+    }
+}
+struct MapOk<S>(S);
+impl<S: Stream<Item = Out> + Unpin> Stream for MapOk<S> {
+    type Item = Result<usize, usize>;
+    fn poll_next(mut self: Pin<&mut Self>, cx: &mut Context<'_>) -> Poll<Option<Self::Item>> {
+        Pin::new(&mut self.0).poll_next(cx).map(|o| o.map(|o| Ok(o.id)))
+    }
+    fn size_hint(&self) -> (usize, Option<usize>) {
+        self.0.size_hint()
+    }
+}
+struct MapTry<S>(S);
+impl<S: Stream<Item = Result<Out, usize>> + Unpin> Stream for MapTry<S> {
+    type Item = Result<usize, usize>;
+    fn poll_next(mut self: Pin<&mut Self>, cx: &mut Context<'_>) -> Poll<Option<Self::Item>> {
+        Pin::new(&mut self.0).poll_next(cx).map(|o| o.map(|r| r.map(|o| o.id)))
+    }
+    fn size_hint(&self) -> (usize, Option<usize>) {
+        self.0.size_hint()
+    }
+}
+struct UnitFut(Fut);
+impl Future for UnitFut {
+    type Output = ();
+    fn poll(self: Pin<&mut Self>, cx: &mut Context<'_>) -> Poll<()> {
+        let inner = unsafe { self.map_unchecked_mut(|s| &mut s.0) };
+        inner.poll(cx).map(|_| ())
+    }
+}
+struct FutStream(Option<Pin<Box<dyn Future<Output = ()>>>>);
+impl Stream for FutStream {
+    type Item = Result<usize, usize>;
+    fn poll_next(mut self: Pin<&mut Self>, cx: &mut Context<'_>) -> Poll<Option<Self::Item>> {
+        match self.0.as_mut() {
+            Some(f) => match f.as_mut().poll(cx) {
+                Poll::Ready(()) => {
+                    self.0 = None;
+                    Poll::Ready(None)
+                }
+                Poll::Pending => Poll::Pending,
+            },
+            None => Poll::Ready(None),
+        }
+    }
+}
+
+// ------------------------------------------------------------------------------------------------ join_all / try_join_all (C06 C07 C04 C18)
+fn run_join(prop: &'static str, seed: u64, iters: usize) {
+    let mut rng = Rng(seed.wrapping_mul(0xA24BAED4963EE407) | 1);
+    for _ in 0..iters {
+        let n = rng.below(5);
+        let try_variant = rng.below(2) == 0;
+        let scenario = format!("{}(n={n})", if try_variant { "try_join_all" } else { "join_all" });
+        let tw = Arc::new(CountWaker(AtomicUsize::new(0)));
+        let waker = Waker::from(tw.clone());
+        let mut cx = Context::from_waker(&waker);
+        let mut hist: Vec<String> = vec![];
+        let fail = |hist: &Vec<String>, what: String| -> ! { report(&Fail { prop, scenario: scenario.clone(), history: hist.clone(), what }) };
+        let children: Vec<St> = (0..n).map(|_| Rc::new(ChildSt::default())).collect();
+        for c in &children {
+            if rng.below(3) == 0 {
+                c.ready.set(true);
+            }
+            if try_variant && rng.below(4) == 0 {
+                c.err.set(true);
+            }
+        }
+        hist.push(format!("inputs ready={:?} err={:?}", children.iter().map(|c| c.ready.get()).collect::<Vec<_>>(), children.iter().map(|c| c.err.get()).collect::<Vec<_>>()));
+        enum J {
+            A(Pin<Box<JoinAll<Fut>>>),
+            B(Pin<Box<TryJoinAll<TFut>>>),
+        }
+        let mut j = if try_variant {
+            J::B(Box::pin(try_join_all(children.iter().enumerate().map(|(i, c)| TFut(Fut::new(i, c.clone()))).collect::<Vec<_>>())))
+        } else {
+            J::A(Box::pin(join_all(children.iter().enumerate().map(|(i, c)| Fut::new(i, c.clone())).collect::<Vec<_>>())))
+        };
+        let allocs0 = ALLOCS.load(Ordering::Relaxed);
+        let mut results_after_ready = 0;
+        for _ in 0..(3 * n + 4) {
+            match rng.below(3) {
+                0 => {
+                    if n > 0 {
+                        let i = rng.below(n);
+                        children[i].ready.set(true);
+                        wake_child(&children[i]);
+                        hist.push(format!("complete({i})"));
+                    }
+                }
+                _ => {
+                    let a0 = ALLOCS.load(Ordering::Relaxed);
+                    let raw: Poll<Result<Vec<Out>, usize>> = match &mut j {
+                        J::A(f) => match f.as_mut().poll(&mut cx) { Poll::Ready(v) => Poll::Ready(Ok(v)), Poll::Pending => Poll::Pending },
+                        J::B(f) => f.as_mut().poll(&mut cx),
+                    };
+                    let a1 = ALLOCS.load(Ordering::Relaxed);
+                    let r: Poll<Result<Vec<usize>, usize>> = raw.map(|r| r.map(|v| v.iter().map(|o| o.id).collect()));
+                    match r {
+                        Poll::Ready(Ok(v)) => {
+                            hist.push(format!("poll -> Ok({v:?})"));
+                            results_after_ready += 1;
+                            if results_after_ready == 1 {
+                                if v != (0..n).collect::<Vec<_>>() {
+                                    fail(&hist, format!("resolved to {v:?}, expected the outputs of inputs 0..{n} in order"));
+                                }
+                                if children.iter().any(|c| !c.done.get()) {
+                                    fail(&hist, "resolved before every input resolved".into());
+                                }
+                                if try_variant && children.iter().any(|c| c.err.get()) {
+                                    fail(&hist, "resolved to Ok although an input failed".into());
+                                }
+                            } else if !v.is_empty() {
+                                fail(&hist, format!("polled again after completion: handed out {v:?}"));
+                            }
+                        }
+                        Poll::Ready(Err(e)) => {
+                            hist.push(format!("poll -> Err({e})"));
+                            results_after_ready += 1;
+                            if !(e < n && children[e].err.get() && children[e].done.get()) {
+                                fail(&hist, format!("Err({e}) is not the error of a failed input"));
+                            }
+                        }
+                        Poll::Pending => {
+                            hist.push("poll -> Pending".into());
+                            if children.iter().all(|c| c.done.get()) && results_after_ready == 0 && n > 0 {
+                                // all done but still pending is only legal if not all outputs were collected yet (next poll)
+                            }
+                        }
+                    }
+                    if prop == "C18" && a1 != a0 {
+                        fail(&hist, format!("{} heap allocation(s) during poll", a1 - a0));
+                    }
+                    for (i, c) in children.iter().enumerate() {
+                        if c.polled_after_done.get() {
+                            fail(&hist, format!("input {i} polled after completion"));
+                        }
+                    }
+                }
+            }
+        }
+        let _ = allocs0;
         drop(j);
-        println!("C06 tokens dropped after cancel: {} of 2", d.get());
+        hist.push("drop".into());
+        for (i, c) in children.iter().enumerate() {
+            if c.dropped.get() != 1 {
+                fail(&hist, format!("input future {i} dropped {} times", c.dropped.get()));
+            }
+            if c.done.get() && !c.err.get() && c.out_dropped.get() != 1 {
+                fail(&hist, format!("output of input {i} dropped {} times", c.out_dropped.get()));
+            }
+        }
     }
-    // C13: MergeUnbounded starvation across groups
+}
+
+// ------------------------------------------------------------------------------------------------ merges (C11 C13 C05)
+struct Src {
+    st: Rc<SrcSt>,
+}
+struct SrcSt {
+    id: usize,
+    script: RefCell<VecDeque<Up>>,
+    seq: Cell<usize>,
+    ended: Cell<bool>,
+    polled_after_end: Cell<bool>,
+    polls: Cell<usize>,
+    waker: RefCell<Option<Waker>>,
+    dropped: Cell<usize>,
+    always_ready: Cell<bool>,
+}
+impl Unpin for Src {}
+impl Drop for Src {
+    fn drop(&mut self) {
+        self.st.dropped.set(self.st.dropped.get() + 1);
+    }
+}
+impl Stream for Src {
+    type Item = (usize, usize);
+    fn poll_next(self: Pin<&mut Self>, cx: &mut Context<'_>) -> Poll<Option<(usize, usize)>> {
+        let st = &self.st;
+        st.polls.set(st.polls.get() + 1);
+        if st.ended.get() {
+            st.polled_after_end.set(true);
+            return Poll::Ready(None);
+        }
+        let next = if st.always_ready.get() { Up::Item } else { st.script.borrow_mut().pop_front().unwrap_or(Up::End) };
+        match next {
+            Up::Item => {
+                let s = st.seq.get();
+                st.seq.set(s + 1);
+                Poll::Ready(Some((st.id, s)))
+            }
+            Up::Pending => {
+                *st.waker.borrow_mut() = Some(cx.waker().clone());
+                Poll::Pending
+            }
+            Up::End => {
+                st.ended.set(true);
+                Poll::Ready(None)
+            }
+        }
+    }
+}
+fn mk_src(id: usize, rng: &mut Rng) -> (Src, Rc<SrcSt>) {
+    let mut script = VecDeque::new();
+    for _ in 0..rng.below(5) {
+        script.push_back(if rng.below(3) == 0 { Up::Pending } else { Up::Item });
+    }
+    script.push_back(Up::End);
+    let st = Rc::new(SrcSt { id, script: RefCell::new(script), seq: Cell::new(0), ended: Cell::new(false), polled_after_end: Cell::new(false), polls: Cell::new(0), waker: RefCell::new(None), dropped: Cell::new(0), always_ready: Cell::new(false) });
+    (Src { st: st.clone() }, st)
+}
+fn run_merge(prop: &'static str, seed: u64, iters: usize) {
+    let mut rng = Rng(seed.wrapping_mul(0x9FB21C651E98DF25) | 1);
+    // fixed fairness scenario (C13): an always-ready source in group 0 must not starve group 1
     {
         let mut m = MergeUnbounded::new();
-        m.push(Rep(0, true));
-        for i in 1..32 { m.push(Rep(i, false)); }
-        m.push(Rep(32, true)); // lands in group 1
-        let mut seen32 = false;
-        for _ in 0..10_000 { if let Poll::Ready(Some(x)) = Pin::new(&mut m).poll_next(&mut cx) { if x == 32 { seen32 = true; break; } } }
-        println!("C13 source 32 ever yielded in 10000 polls: {seen32}");
+        let mut sts = vec![];
+        for i in 0..33 {
+            let (s, st) = mk_src(i, &mut rng);
+            st.script.borrow_mut().clear();
+            st.script.borrow_mut().push_back(Up::Pending);
+            if i == 0 || i == 32 {
+                st.always_ready.set(true);
+            }
+            sts.push(st);
+            m.push(s);
+        }
+        let tw = Arc::new(CountWaker(AtomicUsize::new(0)));
+        let waker = Waker::from(tw.clone());
+        let mut cx = Context::from_waker(&waker);
+        let mut seen = false;
+        for _ in 0..(33 * 3 + 10) {
+            if let Poll::Ready(Some((id, _))) = Pin::new(&mut m).poll_next(&mut cx) {
+                if id == 32 {
+                    seen = true;
+                    break;
+                }
+            }
+        }
+        if !seen {
+            report(&Fail { prop, scenario: "MergeUnbounded: source 0 always ready, 1..31 pending (group 0), source 32 ready (group 1)".into(), history: vec!["109 polls".into()], what: "source 32 was never polled: a permanently ready source in an earlier group starves it".into() });
+        }
     }
-    // C10: for_each_concurrent(0)
-    {
-        let cnt = Rc::new(Cell::new(0)); let c2 = cnt.clone();
-        let mut f = Box::pin(Up(0..3, 0).for_each_concurrent(0, move |_x| { c2.set(c2.get() + 1); std::future::ready(()) }));
-        let r = f.as_mut().poll(&mut cx);
-        println!("C10 for_each_concurrent(0): pending={} closure calls={}", r.is_pending(), cnt.get());
+    for _ in 0..iters {
+        let unbounded = rng.below(2) == 0;
+        let nsrc = 1 + rng.below(4);
+        let scenario = format!("{}({nsrc} sources)", if unbounded { "MergeUnbounded" } else { "MergeBounded" });
+        let mut hist: Vec<String> = vec![];
+        let fail = |hist: &Vec<String>, what: String| -> ! { report(&Fail { prop, scenario: scenario.clone(), history: hist.clone(), what }) };
+        let mut sts: Vec<Rc<SrcSt>> = vec![];
+        let mut srcs = vec![];
+        for i in 0..nsrc {
+            let (s, st) = mk_src(i, &mut rng);
+            hist.push(format!("source {i}: {:?}", st.script.borrow()));
+            sts.push(st);
+            srcs.push(s);
+        }
+        enum M {
+            B(MergeBounded<Src>),
+            U(MergeUnbounded<Src>),
+        }
+        let mut m = if unbounded { M::U(srcs.into_iter().collect()) } else { M::B(srcs.into_iter().collect()) };
+        let tw = Arc::new(CountWaker(AtomicUsize::new(0)));
+        let waker = Waker::from(tw.clone());
+        let mut cx = Context::from_waker(&waker);
+        let mut next_seq = vec![0usize; nsrc];
+        let mut done = false;
+        for _ in 0..60 {
+            if rng.below(3) == 0 {
+                let i = rng.below(nsrc);
+                if let Some(w) = sts[i].waker.borrow().as_ref() {
+                    w.wake_by_ref();
+                }
+                hist.push(format!("wake({i})"));
+                continue;
+            }
+            let before = tw.0.load(Ordering::SeqCst);
+            let r = match &mut m {
+                M::B(m) => Pin::new(m).poll_next(&mut cx),
+                M::U(m) => Pin::new(m).poll_next(&mut cx),
+            };
+            match r {
+                Poll::Ready(Some((id, seq))) => {
+                    hist.push(format!("poll -> item {seq} of source {id}"));
+                    if seq != next_seq[id] {
+                        fail(&hist, format!("source {id}: item {seq} yielded, expected item {} (dropped / duplicated / reordered)", next_seq[id]));
+                    }
+                    next_seq[id] += 1;
+                }
+                Poll::Ready(None) => {
+                    hist.push("poll -> None".into());
+                    if sts.iter().any(|s| !s.ended.get()) {
+                        fail(&hist, "None although a source has not ended".into());
+                    }
+                    done = true;
+                    break;
+                }
+                Poll::Pending => {
+                    hist.push("poll -> Pending".into());
+                    if sts.iter().all(|s| s.ended.get()) {
+                        fail(&hist, "Pending although every source has ended".into());
+                    }
+                    let _ = before;
+                }
+            }
+            for (i, s) in sts.iter().enumerate() {
+                if s.polled_after_end.get() {
+                    fail(&hist, format!("source {i} polled again after it returned None"));
+                }
+                if s.ended.get() && s.dropped.get() != 1 {
+                    fail(&hist, format!("ended source {i} not dropped by the time its None was observed (drops={})", s.dropped.get()));
+                }
+                if next_seq[i] != s.seq.get() {
+                    fail(&hist, format!("source {i} produced {} items but {} were yielded", s.seq.get(), next_seq[i]));
+                }
+            }
+        }
+        let _ = done;
+        drop(m);
+        for (i, s) in sts.iter().enumerate() {
+            if s.dropped.get() != 1 {
+                fail(&hist, format!("source {i} dropped {} times", s.dropped.get()));
+            }
+        }
     }
+}
+
+// ------------------------------------------------------------------------------------------------ C18 bounded family: no allocation after construction
+fn run_alloc(prop: &'static str, seed: u64, iters: usize) {
+    let mut rng = Rng(seed | 1);
+    for _ in 0..iters.min(300) {
+        let cap = 1 + rng.below(4);
+        let mut q = FuturesUnorderedBounded::new(cap);
+        let tw = Arc::new(CountWaker(AtomicUsize::new(0)));
+        let waker = Waker::from(tw.clone());
+        let mut cx = Context::from_waker(&waker);
+        let sts: Vec<St> = (0..cap * 3).map(|_| Rc::new(ChildSt::default())).collect();
+        let mut wakers: Vec<Waker> = Vec::with_capacity(64);
+        let mut hist = vec![format!("FuturesUnorderedBounded::new({cap})")];
+        let mut next = 0;
+        let mut crate_allocs = 0usize;
+        macro_rules! measured { ($e:expr) => {{ let b = ALLOCS.load(Ordering::Relaxed); let r = $e; crate_allocs += ALLOCS.load(Ordering::Relaxed) - b; r }}; }
+        for _ in 0..30 {
+            match rng.below(4) {
+                0 => {
+                    if next < sts.len() {
+                        let f = Fut::new(next, sts[next].clone());
+                        let r = measured!(q.try_push(f));
+                        drop(r);
+                        hist.push(format!("try_push({next})"));
+                        next += 1;
+                    }
+                }
+                1 => {
+                    let r = measured!(Pin::new(&mut q).poll_next(&mut cx));
+                    drop(r);
+                    hist.push("poll".into());
+                }
+                2 => {
+                    if next > 0 {
+                        let i = rng.below(next);
+                        sts[i].ready.set(true);
+                        // clone + wake + drop of the slot waker must not allocate
+                        let w = measured!(sts[i].waker.borrow().as_ref().cloned());
+                        if let Some(w) = w {
+                            if wakers.len() < 60 {
+                                let w2 = measured!(w.clone());
+                                wakers.push(w2);
+                            }
+                            measured!(w.wake());
+                        }
+                        hist.push(format!("complete+wake({i})"));
+                    }
+                }
+                _ => {
+                    let w = wakers.pop();
+                    measured!(drop(w));
+                    hist.push("drop a waker clone".into());
+                }
+            }
+            if crate_allocs != 0 {
+                report(&Fail { prop, scenario: "FuturesUnorderedBounded after construction".into(), history: hist.clone(), what: format!("{} heap allocation(s) after construction", crate_allocs) });
+            }
+        }
+    }
+    // unbounded: allocations logarithmic in the peak
+    let mut q = FuturesUnordered::new();
+    let tw = Arc::new(CountWaker(AtomicUsize::new(0)));
+    let waker = Waker::from(tw.clone());
+    let mut cx = Context::from_waker(&waker);
+    let sts: Vec<St> = (0..40_000).map(|_| { let s: St = Rc::new(ChildSt::default()); s.ready.set(true); s }).collect();
+    let a0 = ALLOCS.load(Ordering::Relaxed);
+    let mut k = 0;
+    for round in 0..200 {
+        for _ in 0..200 {
+            q.push(Fut::new(k, sts[k].clone()));
+            k += 1;
+        }
+        while let Poll::Ready(Some(o)) = Pin::new(&mut q).poll_next(&mut cx) {
+            drop(o);
+        }
+        let _ = round;
+    }
+    let a1 = ALLOCS.load(Ordering::Relaxed);
+    if a1 - a0 > 2 * 12 {
+        report(&Fail { prop, scenario: "FuturesUnordered: 200 rounds of push 200 / drain".into(), history: vec![format!("{} futures processed, peak 200", k)], what: format!("{} allocations: grows with the number of futures processed instead of log(peak)", a1 - a0) });
+    }
+}
+
+// ------------------------------------------------------------------------------------------------ C10 known input
+fn run_foreach_zero(prop: &'static str) {
+    let (u, st) = upstream(&[Up::Item, Up::Item, Up::End], Box::new(|id, c| (id, c)));
+    let calls = Rc::new(Cell::new(0));
+    let c2 = calls.clone();
+    let mut f = Box::pin(u.for_each_concurrent(0, move |(id, c): (usize, St)| {
+        c2.set(c2.get() + 1);
+        UnitFut(Fut::new(id, c))
+    }));
+    let tw = Arc::new(CountWaker(AtomicUsize::new(0)));
+    let waker = Waker::from(tw.clone());
+    let mut cx = Context::from_waker(&waker);
+    let r = f.as_mut().poll(&mut cx);
+    if r.is_pending() && st.polls.get() == 0 && tw.0.load(Ordering::SeqCst) == 0 {
+        report(&Fail { prop, scenario: "stream::iter(2 items).for_each_concurrent(0, f)".into(), history: vec!["poll".into()], what: "Pending, upstream never polled, no waker registered or invoked: hangs forever although the docs say a limit of zero means no limit".into() });
+    }
+}
+
+fn main() {
+    let args: Vec<String> = std::env::args().collect();
+    if args.len() < 2 {
+        eprintln!("usage: fb-replay <Cxx> [--seed N] [--iters N] [--known]");
+        std::process::exit(3);
+    }
+    let prop: &'static str = Box::leak(args[1].clone().into_boxed_str());
+    let mut seed = 1u64;
+    let mut iters = 4000usize;
+    let mut known = false;
+    let mut i = 2;
+    while i < args.len() {
+        match args[i].as_str() {
+            "--seed" => {
+                seed = args[i + 1].parse().unwrap_or(1);
+                i += 1;
+            }
+            "--iters" => {
+                iters = args[i + 1].parse().unwrap_or(4000);
+                i += 1;
+            }
+            "--known" => known = true,
+            _ => {}
+        }
+        i += 1;
+    }
+    match prop {
+        "C01" | "C02" | "C05" | "C08" | "C12" | "C14" | "C15" => run_collections(prop, seed, iters),
+        "C04" => {
+            run_collections(prop, seed, iters);
+            run_adapters(prop, seed, iters / 2);
+            run_join(prop, seed, iters / 2);
+        }
+        "C09" | "C16" | "C17" => run_adapters(prop, seed, iters),
+        "C10" => {
+            if known {
+                run_foreach_zero(prop);
+            }
+            run_adapters(prop, seed, iters);
+        }
+        "C06" | "C07" => {
+            run_join(prop, seed, iters);
+            run_collections(prop, seed, iters / 4);
+            run_adapters(prop, seed, iters / 4);
+        }
+        "C11" | "C13" => run_merge(prop, seed, iters),
+        "C18" => {
+            run_alloc(prop, seed, iters);
+            run_join(prop, seed, iters / 4);
+        }
+        _ => {}
+    }
+    println!("NOFAIL property={prop} seed={seed} iters={iters}");
 }
